@@ -89,6 +89,39 @@ func (p *Prog) newViewInfo() *viewInfo {
 			})
 		}
 	}
+	// forwarders: an UNEXPORTED decoder method that returns what a view function returned is a view function itself
+	// (its callers are then held to the view discipline instead of the helper)
+	for changed := true; changed; {
+		changed = false
+		for _, file := range pkg.Syntax {
+			for _, d := range file.Decls {
+				fd, ok := d.(*ast.FuncDecl)
+				if !ok || fd.Body == nil || fd.Name.IsExported() {
+					continue
+				}
+				f, _ := pkg.TypesInfo.Defs[fd.Name].(*types.Func)
+				if f == nil || vi.viewFuncs[f] || !p.namedIO(recvType(f), "Decoder") {
+					continue
+				}
+				ast.Inspect(fd.Body, func(n ast.Node) bool {
+					if _, isLit := n.(*ast.FuncLit); isLit {
+						return false
+					}
+					if ret, ok := n.(*ast.ReturnStmt); ok {
+						for _, res := range ret.Results {
+							if c, ok := ast.Unparen(res).(*ast.CallExpr); ok {
+								if cf := Callee(pkg.TypesInfo, c); cf != nil && vi.viewFuncs[cf] {
+									vi.viewFuncs[f] = true
+									changed = true
+								}
+							}
+						}
+					}
+					return true
+				})
+			}
+		}
+	}
 	return vi
 }
 
